@@ -74,7 +74,7 @@ int main(int argc, char **argv) {
               "and the whole history is run twice with fresh allocations filled 0xA5 / 0x5A (byte-identical traces). "
               "non-trivial = >= 3 transmitted frames of >= 2 different opcodes; distinct = digest of the case";
     HistWeights w;
-    w.raw = 0; w.shell = 3; w.commands_from_active_only = false;
+    w.raw = 0; w.shell = 3; w.commands_from_active_only = false; w.pburst = 1;
     // mix: history ops + raw frames from the template/mutation generator
     auto gen = rc::gen::exec([w] {
         HCfg h = *hg::cfg_gen();
@@ -83,9 +83,9 @@ int main(int argc, char **argv) {
         Mac own = h.ownmac();
         size_t mtu = h.mtu;
         int n = *gx::range<int>(1, 40);
-        c.ops = *rc::gen::resize(n, rc::gen::container<std::vector<Op>>(gx::weighted<Op>({
+        c.ops = hg::expand_bursts(*rc::gen::resize(n, rc::gen::container<std::vector<Op>>(gx::weighted<Op>({
             {5, hg::op_gen(w)},
-            {1, rc::gen::exec([=] { Op o; o.kind = K_RAW; o.blob = c01_frame(mtu, own, *frame_t_gen()); return o; })}})));
+            {1, rc::gen::exec([=] { Op o; o.kind = K_RAW; o.blob = c01_frame(mtu, own, *frame_t_gen()); return o; })}}))));
         return c;
     });
     bool ok = run_cases(a, ev, "c02-histories", a.n(40000, 400000), 100, gen, run);
